@@ -218,7 +218,7 @@ class C03(Prop):
     CASE_HEADER = ("From Boreal Require Import Base.Prelude Spec.Regex Model.Hir Model.Widen Model.Validator "
                    "Model.Raw Model.HirScan Model.HexCase.")
     HARNESS_BINS = ("c03",)
-    KF = {1: "C03-start-position", 2: "C03-fullword-single-length", 3: "C03-alt-glue"}
+    KF = {1: "C03-start-position", 2: "C03-fullword-single-length", 3: "C03-alt-glue", 4: "C03-wide-boundary-rev-context"}
     RULE = ("regex ASTs of the property's dialect (literals incl. NUL, newline and escaped metacharacters, perl and "
             "bracketed classes incl. negated and ranges, dot, groups, alternation, ? * + {n} {n,} {n,m} {,m} greedy and "
             "lazy, ^ $ \\b \\B, rare non-ASCII characters), depth <= 3, non-nullable, printed to YARA syntax with every "
@@ -358,7 +358,39 @@ class C03(Prop):
                 break
         return b"".join(parts)[:64]
 
+    def gen_branch_family(self, rng):
+        """alternation whose branches differ in length by several bytes, a word-boundary assertion at the
+        start (or inside) the long branch, a one-byte class as the short branch; inputs end with bytes the
+        short branch matches (matches saved from the long literal can start after later literals)."""
+        word = [rng.choice([0x5F, 0x63, 0x31, 0x41, 0x20, 0x78, 0x61]) for _ in range(rng.range(6, 10))]
+        long_branch = [["lit", word[0], 0], ["assert", rng.choice(["wb", "nwb"])]] + [["lit", b, 0] for b in word[1:]]
+        if rng.chance(1, 3):
+            long_branch = [["lit", b, 0] for b in word[:2]] + [["rep", ["dot"], ["n,m", 0, 2], False]] + [["lit", b, 0] for b in word[2:]]
+        short = rng.choice([["class", ["perl", "d", True]], ["class", ["perl", "w", False]],
+                            ["class", ["br", [["range", 0x61, 0x7A]], False]], ["lit", word[-1], 0]])
+        alts = [["cat", long_branch], short]
+        if rng.chance(1, 2):
+            alts = alts[::-1]
+        node = ["alt", alts]
+        mods = {"nocase": False, "wide": False, "ascii": False, "fullword": False}
+        ci, da = False, rng.chance(1, 2)
+        retext = "/%s/%s" % (re_text(node), "s" if da else "")
+        wb = bytes(word)
+        inputs = []
+        for i in range(4):
+            r = rng.fork("bf%d" % i)
+            pre = r.bytes(r.range(0, 3), [0x5F, 0x20, 0x31, 0x61])
+            inputs.append((pre + wb[:1] * r.range(0, 1) + wb + r.bytes(r.range(0, 2), [0x61, 0x31, 0x20]))[:64].hex())
+        subjects = [wb.hex(), wb[:3].hex()]
+        src = "rule r { strings: $a = %s condition: $a or true }\n" % retext
+        for i, sj in enumerate(subjects):
+            lit = "".join("\\x%02x" % b for b in bytes.fromhex(sj))
+            src += 'rule m%d { condition: "%s" matches %s }\n' % (i, lit, retext)
+        return {"node": node, "ci": ci, "da": da, "mods": mods, "src": src, "inputs": inputs, "subjects": subjects}
+
     def gen_case(self, rng):
+        if rng.chance(1, 12):
+            return self.gen_branch_family(rng)
         mods = {"nocase": rng.chance(1, 4), "wide": rng.chance(1, 4), "ascii": False, "fullword": rng.chance(1, 5)}
         if mods["wide"]:
             mods["ascii"] = rng.chance(1, 2)
